@@ -221,4 +221,49 @@ func TestConcurrent(t *testing.T) {
 	})
 }
 
+const chkLin = "omap-linearizable"
+
+// Small concurrent plans whose outcome must be the outcome of some order of their operations.
+func TestLinearizable(t *testing.T) {
+	run.SkipIfReplaying(t)
+	defer run.Done(t, chkLin)
+	rapid.Check(t, func(t *rapid.T) {
+		typ := rapid.SampledFrom(types[:3]).Draw(t, "type")
+		op := func(l string) omap.Op {
+			switch rapid.IntRange(0, 6).Draw(t, l) {
+			case 0, 1, 2:
+				return omap.Op{Kind: "set", K: rapid.IntRange(0, 2).Draw(t, l+"k"), V: rapid.SampledFrom([]string{"a", "b", "ax", "by"}).Draw(t, l+"v")}
+			case 3:
+				return omap.Op{Kind: "update", K: rapid.IntRange(0, 2).Draw(t, l+"k")}
+			case 4:
+				return omap.Op{Kind: "delete", K: rapid.IntRange(0, 2).Draw(t, l+"k")}
+			case 5:
+				return omap.Op{Kind: "filter", P: rapid.IntRange(0, 3).Draw(t, l+"p")}
+			}
+			return omap.Op{Kind: "map", P: 0}
+		}
+		var init []omap.Op
+		for k := 0; k < 3; k++ {
+			init = append(init, omap.Op{Kind: "set", K: k, V: rapid.SampledFrom([]string{"a", "b", "bz"}).Draw(t, "init")})
+		}
+		g := rapid.IntRange(2, 3).Draw(t, "goroutines")
+		plans := make([][]omap.Op, g)
+		hasFilter := false
+		for i := range plans {
+			for j, n := 0, rapid.IntRange(1, 3).Draw(t, "len"); j < n; j++ {
+				o := op(fmt.Sprint("op", i, "_", j))
+				hasFilter = hasFilter || o.Kind == "filter" || o.Kind == "map"
+				plans[i] = append(plans[i], o)
+			}
+		}
+		for rep := 0; rep < 40; rep++ {
+			if d := omap.Linearizable(omap.Factories[typ], init, plans); d != "" {
+				run.Fail(t, chkLin, map[string]any{"map_type": typ, "initial": init, "plans": plans}, "%s", d)
+			}
+		}
+		run.Eval(chkLin, hasFilter, typ, fmt.Sprint(init), fmt.Sprint(plans))
+		run.Label("linearizable-plan")
+	})
+}
+
 func TestReplay(t *testing.T) { run.TestReplay(t) }
